@@ -20,7 +20,8 @@ RULE = ("histories of 20-90 Vgroup operations on one file (Vattach(-1)/Vattach/V
         "chunk-table prefix and the legacy name limit -- and differing right after), renames to near misses of the "
         "current value (records shrinking / growing by 1-3 bytes), a final lookup of every existing name and class "
         "through every lookup routine, through still-open handles and after detach (in random order) and reopen; five "
-        "generator profiles (edit, growth, names, hierarchy, codec); all choices from one PRNG (VERIF_SEED); a light "
+        "generator profiles (edit, growth, names, hierarchy, codec) plus store histories (Hputelement over existing "
+        "elements, records shrinking / growing by 1-5 bytes with the raw element compared after every Vdetach); all choices from one PRNG (VERIF_SEED); a light "
         "shadow state only steers weights; reference numbers are taken from the library and only checked for "
         "freshness.  A history is non-trivial when it edits a member list and reads it back after a reopen; "
         "distinct by operation text")
@@ -29,8 +30,9 @@ TRUSTED = ["Coq 8.16.1 kernel", "extraction (ExtrOcamlBasic only; Z/positive/nat
            "comparison in checks/C08.py",
            "translator gen_consts.py + plugin gen/plugins/vg_tables.py (constants, internal class-name table, codec "
            "statement layout and growth/shift statements in gen/Gen_VG.v)",
-           "modelled, not verified: the element store below Vdetach/Load_vfile (Hputelement/Hgetelement/Hdeldd/"
-           "HDreuse_tagref are a finite map ref -> bytes; see C01/C12), the TBBT (an ordered table), Vdata records "
+           "modelled, not verified: that hfile.c's descriptors / free space implement the element map under the "
+           "records (Hputelement in place vs sized, HDreuse_tagref, Hdeldd are modelled and tied by R-vs-M on the raw "
+           "bytes; see C01/C12), the TBBT (an ordered table), Vdata records "
            "(a table ref -> name, class; see C07)"]
 ASSUMPTIONS = ["domain: all Vgroup/Vdata handles are detached before the file is closed; Vdelete/VSdelete only of "
                "objects without open handles (stale handles are C13); tags/refs in 0..65535, names without NUL; "
@@ -610,6 +612,52 @@ def gen_codec_history(r, name):
     return L
 
 
+def gen_store_history(r, name):
+    """the element under a record (R vs M on the raw bytes; R vs S on what is read back):
+    (a) Hputelement over an existing element: a shorter record is written in place and the old length stays, a longer
+        one is refused -- never reopened afterwards, the element is not a record any more;
+    (b) Vdetach of a vgroup whose record shrinks / grows by 1..5 bytes or by a whole member: the element is exactly
+        the new record every time, also after a reopen"""
+    L = ["history " + name, "open", "vgnew 0 =0", "vgdetach 0"]
+    if r.random() < 0.4:
+        ref = r.choice([500, 501, 4000])
+        n = r.choice([0, 1, 3, 70])
+        mem = [(720, i + 1) for i in range(n)]
+        a = vg_record(mem, rname(r, True) or b"abc", rname(r) or b"c", 3)
+        L += ["putraw %d %s" % (ref, hexs(a)), "rawvg %d" % ref]
+        for _ in range(r.randrange(1, 4)):
+            d = r.choice([-5, -4, -3, -2, -1, 0, 1, 2, 9])
+            nm = bytes(97 + i % 26 for i in range(max(1, len(a) - 15 - 4 * n - 1 + d)))
+            b = vg_record(mem, nm, b"", 3)
+            L += ["putraw %d %s" % (ref, hexs(b)), "rawvg %d" % ref]
+        return L
+    nm = bytes(r.randrange(97, 123) for _ in range(r.choice([3, 10, 64, 65, 70])))
+    cl = bytes(r.randrange(97, 123) for _ in range(r.choice([0, 4, 9])))
+    L += ["vgattach 1 @0 w", "setname 1 %s" % hexs(nm)] + (["setclass 1 %s" % hexs(cl)] if cl else []) + \
+         ["addmany 1 1965 1 %d 1" % r.choice([1, 2, 5]), "vgdetach 1", "rawvg @0"]
+    for _ in range(r.randrange(2, 6)):
+        c = r.randrange(5)
+        L.append("vgattach 1 @0 w")
+        if c == 0 and len(nm) > 1:
+            nm = nm[:len(nm) - r.choice([1, 1, 2, 3, 4, 5])] or b"n"
+            L.append("setname 1 %s" % hexs(nm))
+        elif c == 1:
+            nm = nm + bytes(r.randrange(97, 123) for _ in range(r.choice([1, 2, 3])))
+            L.append("setname 1 %s" % hexs(nm))
+        elif c == 2:
+            cl = cl[:-1] if cl and r.random() < 0.6 else cl + b"z"
+            L.append("setclass 1 %s" % hexs(cl))
+        elif c == 3:
+            L.append("deltagref 1 1965 %d" % r.choice([1, 2, 3]))
+        else:
+            L.append("addtagref 1 1962 7")
+        L += ["vgdetach 1", "rawvg @0"]
+        if r.random() < 0.6:
+            L += [r.choice(["reopen", "reopen v"]), "vgattach 2 @0 r", "getname 2", "getclass 2", "gettagrefs 2 9",
+                  "vgdetach 2", "find %s" % hexs(nm)]
+    return L
+
+
 # --------------------------------------------------------------------------------------------------
 # running
 # --------------------------------------------------------------------------------------------------
@@ -803,6 +851,8 @@ def run(ctx):
         hists += [gen_history(r, "%s%d" % (prof, i), prof) for i in range(per)]
     ncodec = 40 if ctx.tier == "quick" else 800
     hists += [gen_codec_history(r, "codec%d" % i) for i in range(ncodec)]
+    nstore = 30 if ctx.tier == "quick" else 600
+    hists += [gen_store_history(r, "codecstore%d" % i) for i in range(nstore)]
     rc, R, S, M, flat, res = run_all(ctx, hists, "main")
     opmix, fails_r, nviol_s, nviol_m = {}, 0, 0, 0
     maxmem, growth_hits, name_lens, unspec_h, codec_ops, unspec_ops = 0, set(), set(), 0, 0, {}
